@@ -313,6 +313,32 @@ def _iterator_advance(fi, w, cond_names) -> bool:
     return False
 
 
+def _dealias_bound_methods(fi):
+    """`pop = stack.pop` ... `pop()`: calls through a local name that is bound once to a method of another local are rewritten (in this
+    process's copy of the tree) to the call they stand for, so that the loop recognisers see `stack.pop()`"""
+    from ..core import local_defs
+    if getattr(fi, "_dealiased", False):
+        return
+    fi._dealiased = True
+    alias = {}
+    for n in fi.walk():
+        if isinstance(n, ast.Call) and isinstance(n.func, ast.Name) and n.func.id not in alias:
+            defs = local_defs(fi, n.func.id)
+            if len(defs) == 1 and isinstance(defs[0][0], ast.Attribute) and isinstance(defs[0][0].value, ast.Name):
+                owner = defs[0][0].value.id
+                if len(local_defs(fi, owner)) <= 1:
+                    alias[n.func.id] = defs[0][0]
+            else:
+                alias[n.func.id] = None
+    for n in list(fi.walk()):
+        if isinstance(n, ast.Call) and isinstance(n.func, ast.Name) and alias.get(n.func.id) is not None:
+            src = alias[n.func.id]
+            new = ast.copy_location(ast.Attribute(value=ast.copy_location(ast.Name(id=src.value.id, ctx=ast.Load()), n.func), attr=src.attr, ctx=ast.Load()), n.func)
+            n.func = new
+            fi.parents[new] = n
+            fi.parents[new.value] = new
+
+
 def rule_R7(ctx, prj, fns):
     ctx.rule("R7", "termination: every while loop on the analysis path has a variant (an unconditional step of a variable "
                    "of its condition, an unconditional pop of the collection it tests, or a worklist guarded by a marked "
@@ -321,6 +347,8 @@ def rule_R7(ctx, prj, fns):
     if len(fns) < 30:
         raise AnalysisError(f"only {len(fns)} functions on the analysis path (about 100 confirmed by reading): the call graph from scan/check is broken")
     for fi in fns:
+        if any(isinstance(x, ast.While) for x in fi.walk()):
+            _dealias_bound_methods(fi)
         for w in [x for x in fi.walk() if isinstance(x, ast.While)]:
             key = f"{fi.local}/while {unparse(w.test)[:50]}"
             cond_names = {n.id for n in ast.walk(w.test) if isinstance(n, ast.Name)}
